@@ -13,6 +13,10 @@ the units that tie those contracts to the real source:
      induction step: if the envelopes are homogeneous (assumed for the interpolants) then IT(cX, k+1) = c IT(X, k+1) follows from
      IT(cX, k) = c IT(X, k);  mask scaling: c X + |c| m = c (X + sign(c) m), and sign(c) m is again one of the masks when the phase
      set is closed under a half-turn (even number of phases).
+  relational lemmas over the stage CONTRACTS (contracts/C02r.py; for positive factors, negative factors, time reversal x the three
+  stopping rules): the iterates of the transformed input are the transformed iterates (induction: base + step), the stop decisions
+  agree, the first stop index is the same, any two results satisfying get_next_imf's postcondition are transform-related, the continue
+  flag is the same, and the component / residual recursion of the sift is transform-related (induction: base + step).
 The bit-for-bit clause (powers of two, -1) is floating-point behaviour: observed by the bounded stand-in only.
 """
 import numpy as np
@@ -32,7 +36,14 @@ ASSUMPTIONS = [
     'sum is linear: sum(c^2 f) = c^2 sum(f) (used for the SD ratio): assumed',
     'std(c X) = |c| std(X): assumed property of np.std',
 ]
-NOT_COVERED = ['bit-for-bit equality for scale factors 2^k and -1 (bounded stand-in observes it)', 'the equivariance of complete decompositions is an induction over the lemmas; the induction itself is not machine-checked']
+ASSUMPTIONS += [
+    'relational lemmas (contracts/C02r.py): the equivariance of the STAGE contracts (envelopes and their existence commute with the transform - upper and lower swapped for a negative factor; the stopping decisions are invariant) is ASSUMED at the iterates; it rests on lemmas 1-5 plus the homogeneity / mirror symmetry of the scipy interpolants and the linearity of sums',
+    'the two inductions (over the iteration number, over the component index) are given as base and step lemmas; the induction principle itself is applied by the harness (it is the quantified hypothesis of the lemma that uses the conclusion)',
+    'sift level: the recursion COMP / RES of the C01 contract is shown equivariant; that the two runs also extract the same NUMBER of components needs the sift threshold to be rescaled with the input (or not to fire) - observed by the bounded stand-in',
+]
+NOT_COVERED = ['bit-for-bit equality for scale factors 2^k and -1 (bounded stand-in observes it)',
+               'equal number of components in the two runs when the sift threshold fires (the threshold is absolute, not relative): bounded stand-in',
+               'masked sift: the relational argument is machine-checked for the unmasked extraction only; for masks the lemmas of group 7 are algebraic (not composed)']
 
 
 def units(tier):
@@ -93,6 +104,10 @@ def lemmas(tier):
     P, p = z3.Ints('P p')
     L.append(('even-phase-set-closed-under-half-turn', [P >= 2, P % 2 == 0, 0 <= p, p < P], z3.And(0 <= (p + P / 2) % P, (p + P / 2) % P < P,
                                                                                               z3.Or(2 * ((p + P / 2) % P) == 2 * p + P, 2 * ((p + P / 2) % P) == 2 * p - P))))
+    # 8. the relational argument over the stage contracts (iterates, stop decisions, first stop index, extraction result, flag, components):
+    #    inductions given as base + step, see contracts/C02r.py
+    from contracts import C02r
+    L += C02r.relational_lemmas(tier)
     return L
 
 
@@ -127,6 +142,16 @@ def _run(fn, x, o, extra=None):
           'envelope_opts': {'interp_method': o['interp']}, 'extrema_opts': {'pad_width': o['pad']}}
     if o['rule'] == 'fixed':
         kw['imf_opts']['max_iters'] = 6
+    # custom edge padding (np.pad options for the padded magnitudes / locations); the option dictionaries of a pair of runs are the SAME
+    # objects when the witness says so (`shared`), as in a script that builds its options once
+    for nm in ('mag_pad_opts', 'loc_pad_opts'):
+        if nm in o:
+            kw['extrema_opts'][nm] = dict(o[nm])
+    sh = o.get('_shared')
+    if sh is not None:
+        if 'kw' not in sh:
+            sh['kw'] = kw
+        kw = sh['kw']
     if fn == 'get_next_imf':
         return S.get_next_imf(x[:, None].copy(), envelope_opts=kw['envelope_opts'], extrema_opts=kw['extrema_opts'], **kw['imf_opts'])[0]
     if fn == 'sift':
@@ -165,6 +190,8 @@ def replay(w):
         return False, 'unknown witness kind'
     x = np.array(w['x'], float)
     o = w['opts']
+    if w.get('share_options'):
+        o = dict(o, _shared={})
     fn = w['fn']
     tr = w['transform']
     extra = w.get('extra')
@@ -237,6 +264,28 @@ def refute(tier, seed, emit):
                     if ok:
                         cl = 'bit-for-bit-for-powers-of-two' if 'bit-for-bit' in msg else ('time-reversal' if tr[0] == 'reverse' else 'scaling') + ':' + fn
                         emit.violation(cl, w, msg)
+        if emit.full:
+            return
+    # every padding setting: custom np.pad options for the padded magnitudes / locations, option dictionaries built once and reused
+    # (statistics that are themselves odd under a sign flip: mean, median, edge.  `maximum` / `minimum` are applied to the trough VALUES, not
+    #  to the negated signal, so they are not sign-equivariant by construction - outside the property, see DESIGN 10.4)
+    PADS = [{'mag_pad_opts': {'mode': 'mean', 'stat_length': 3}}, {'mag_pad_opts': {'mode': 'median', 'stat_length': 3}},
+            {'loc_pad_opts': {'mode': 'reflect', 'reflect_type': 'odd'}, 'mag_pad_opts': {'mode': 'edge'}},
+            {'mag_pad_opts': {'mode': 'mean', 'stat_length': 2}, 'loc_pad_opts': {'mode': 'reflect', 'reflect_type': 'odd'}}]
+    if tier == 'quick':
+        PADS = PADS[:3]
+    emit.scope('%d signals x %d custom edge-padding settings (np.pad modes mean / median / edge with stat_length for the magnitudes, odd reflection for the locations) x {reverse, factor -1, 4, 3.7} x {get_next_imf, sift} x {fresh option dictionaries per run, the same dictionaries for both runs}' % (min(nsig, 3), len(PADS)))
+    for si, x in enumerate(sigs[:3]):
+        for pi_, pd_ in enumerate(PADS):
+            o = dict({'rule': ['sd', 'fixed', 'rilling'][pi_ % 3], 'step': 1, 'interp': 'splrep', 'pad': [2, 3, 1][pi_ % 3]}, **pd_)
+            for fn in ('get_next_imf', 'sift'):
+                for tr in (('reverse',), ('scale', -1.0), ('scale', 4.0), ('scale', 3.7)):
+                    for share in (False, True):
+                        emit.case(('pads', si, pi_, fn, tr, share), nontrivial=True, contract=fn)
+                        w = {'kind': 'equivariance', 'x': x.tolist(), 'opts': o, 'fn': fn, 'transform': list(tr), 'share_options': share}
+                        ok, msg = replay(w)
+                        if ok:
+                            emit.violation(('time-reversal' if tr[0] == 'reverse' else 'scaling') + ':' + fn + ':custom-padding', w, msg)
         if emit.full:
             return
     # quantised recordings (plateaus of equal samples, flat-topped extrema): time reversal and sign flip must still commute
